@@ -83,7 +83,7 @@ func (e *fnEnc) siteAsserts(v ssa.Value, c *ssa.CallCommon, instr ssa.Instructio
 		seen[n] = true
 		site := fmt.Sprintf("%s#%d", n, e.siteOrdinal(instr, n))
 		for _, cl := range e.contract.AtCalls {
-			if cl.Site != site || (cl.Kind == "assert-before") != before {
+			if (cl.Site != site && cl.Site != n+"#*") || (cl.Kind == "assert-before") != before {
 				continue
 			}
 			idx := -1
@@ -104,6 +104,12 @@ func (e *fnEnc) siteAsserts(v ssa.Value, c *ssa.CallCommon, instr ssa.Instructio
 					}
 					return TV{e.term(v), e.S().SortOf(v.Type()), v.Type()}, true
 				}
+				if strings.HasPrefix(name, "arg") {
+					var k int
+					if _, err := fmt.Sscanf(name, "arg%d", &k); err == nil && k < len(c.Args) {
+						return TV{e.term(c.Args[k]), e.S().SortOf(c.Args[k].Type()), c.Args[k].Type()}, true
+					}
+				}
 				return e.varAtIdx(name, blk, idx, nil, e.cur)
 			}
 			f, err := env.Bool(cl.Expr)
@@ -118,7 +124,7 @@ func (e *fnEnc) siteAsserts(v ssa.Value, c *ssa.CallCommon, instr ssa.Instructio
 			if tag == "" {
 				tag = "a"
 			}
-			e.vc.oblige(&Obligation{Name: fmt.Sprintf("%s#assert:%s@%s", FuncKey(e.fn), tag, cl.Site), Kind: "assert", Guard: e.guard(), Cond: f, Props: props, Pos: instr.Pos(), Src: cl.Src})
+			e.vc.oblige(&Obligation{Name: fmt.Sprintf("%s#assert:%s@%s", FuncKey(e.fn), tag, site), Kind: "assert", Guard: e.guard(), Cond: f, Props: props, Pos: instr.Pos(), Src: cl.Src})
 		}
 	}
 }
@@ -343,6 +349,9 @@ func (e *fnEnc) applyContract(v ssa.Value, fn *ssa.Function, ct *FuncContract, c
 		e.havocSummary(e.vc.P.Summ[fn], false)
 	}
 	results := e.freshResults(v, fn.Signature, hint)
+	if ct.Functional && len(results) == 1 {
+		e.vc.def(sEq(results[0], e.vc.functionalApp(fn, args)))
+	}
 	envPost := e.calleeEnv(fn, args, results, pre, e.cur)
 	for _, cl := range ct.Ensures {
 		f, err := envPost.Bool(cl.Expr)
@@ -690,6 +699,21 @@ func (e *fnEnc) countHit(c *ssa.CallCommon, instr ssa.Instruction) {
 			k := hitsKey(site)
 			e.setHeap(k, fmt.Sprintf("(+ %s 1)", e.heap(k)))
 		}
+		// "name@argN=V": every call of name whose N-th argument is the constant V
+		for hs := range e.contract.HitSites {
+			if !strings.HasPrefix(hs, n+"@arg") {
+				continue
+			}
+			var k int
+			var val string
+			if _, err := fmt.Sscanf(strings.TrimPrefix(hs, n+"@"), "arg%d=%s", &k, &val); err != nil || k >= len(c.Args) {
+				continue
+			}
+			if e.term(c.Args[k]) == val {
+				hk := hitsKey(hs)
+				e.setHeap(hk, fmt.Sprintf("(+ %s 1)", e.heap(hk)))
+			}
+		}
 	}
 }
 
@@ -746,4 +770,17 @@ func (e *fnEnc) siteOrdinal(instr ssa.Instruction, name string) int {
 		}
 	}
 	return -1
+}
+
+// functionalApp is the uninterpreted-function application standing for a call of a "functional" contracted function.
+func (vc *VC) functionalApp(fn *ssa.Function, args []string) string {
+	S := vc.P.Sorts
+	name := "fn!" + mangle(FuncKey(fn))
+	var sorts []string
+	for _, p := range fn.Params {
+		sorts = append(sorts, S.SortOf(p.Type()))
+	}
+	vc.declFun(name, "("+strings.Join(sorts, " ")+") "+S.SortOf(fn.Signature.Results().At(0).Type()))
+	vc.note("FUNCTIONAL (assumed): %s returns a function of its arguments only (the data it reads is not modified between calls)", FuncKey(fn))
+	return sApp(name, args...)
 }
